@@ -25,6 +25,7 @@ import RTV.Drv.CultureCfg
 import RTV.Drv.ZhDateTime
 import RTV.Drv.DateParser
 import RTV.Drv.NumExtract
+import RTV.Drv.NumBig
 /-! Model driver: one operation per input line (tab-separated), one answer line per operation.
 Run compiled (`.lake/build/bin/rtvdriver`) or with `lake env lean --run Driver.lean`. -/
 open RTV.Drv
@@ -59,6 +60,7 @@ def dispatch (line : String) : String :=
       <|> dispatchSpan op args
       <|> dispatchUnitExtract op args
       <|> dispatchNumExtract op args
+      <|> dispatchNumBig op args
       -- <|> dispatchOther op args   (one alternative per layer)
       ).getD "bad-op"
   | _ => "bad-op"
